@@ -34,12 +34,14 @@ use re::util::buf::{AsSlice2, Buf2};
 use re::util::pnm::{parse_pnm, read_pnm, write_ppm, Error as PnmError};
 use serde::{Deserialize, Deserializer, Serialize, Serializer};
 use serde_json::{json, Value};
+use std::ops::Bound;
 use std::path::{Path, PathBuf};
 use std::process::Command;
 use std::time::Instant;
 
 pub const RULE: &str = "roundtrip: proptest images 0..24 x 0..24 (dimension classes 0/1/2/small/any), owned (by value, by reference, as Slice2, as MutSlice2) \
-or a one- or two-level rectangular sub-view of a larger buffer, pixel bytes from a mixture {whitespace, '#', digits, 0, 255, 'P', sign, uniform}. \
+or a one- or two-level rectangular sub-view of a larger buffer (ranges spelled a..b, a.., ..b, .., a..=b or as Bound pairs with an exclusive start), \
+written into a Vec or into a writer that accepts 1..40 bytes per call (short writes, with or without ErrorKind::Interrupted), pixel bytes from a mixture {whitespace, '#', digits, 0, 255, 'P', sign, uniform}. \
 reencode: same image generator, grey or RGB, maxval 255 (3/4) or 1..255, encoded by the harness as binary and as text with header gaps made of \
 1..4 items (whitespace byte | whitespace byte + '#' comment + newline) and 6 text-sample separator styles. \
 mutated: a valid P2..P6 file (dims 0..6) with one mutation out of {none, truncate, header field replaced by a special token, both dims replaced by an \
@@ -400,6 +402,60 @@ pub struct RtCase {
     pub rects: Vec<[u32; 4]>,
     /// how the image is handed to write_ppm (owned: 0 by value, 1 by reference, 2 as Slice2, 3 as MutSlice2; views: even Slice2, odd MutSlice2)
     pub via: u8,
+    /// per rect, per axis: how the range is spelled (bit 0: open start when it is 0, bit 1: open end when it is the
+    /// parent's extent, bit 2: inclusive end, bit 3: exclusive start); missing = plain `a..b`
+    #[serde(default)]
+    pub forms: Vec<[u8; 2]>,
+    /// the `Write` sink: 0 = a Vec; k > 0 = a writer that accepts at most k bytes per `write` call (short writes,
+    /// which `Write` permits) and, when bit 7 is set, returns `ErrorKind::Interrupted` now and then
+    #[serde(default)]
+    pub sink: u8,
+}
+
+/// A range in the spelling selected by `form` (always the same set of indices as `lo..hi`).
+fn spelled(lo: u32, hi: u32, parent: u32, form: u8) -> (Bound<u32>, Bound<u32>) {
+    let start = if form & 1 != 0 && lo == 0 {
+        Bound::Unbounded
+    } else if form & 8 != 0 && lo > 0 {
+        Bound::Excluded(lo - 1)
+    } else {
+        Bound::Included(lo)
+    };
+    let end = if form & 2 != 0 && hi == parent {
+        Bound::Unbounded
+    } else if form & 4 != 0 && hi > 0 && hi > lo {
+        Bound::Included(hi - 1)
+    } else {
+        Bound::Excluded(hi)
+    };
+    (start, end)
+}
+
+/// A `Write` that takes at most `max` bytes per call and is interrupted now and then.
+struct Dribble {
+    out: Vec<u8>,
+    max: usize,
+    intr: bool,
+    calls: usize,
+}
+
+impl std::io::Write for Dribble {
+    fn write(&mut self, buf: &[u8]) -> std::io::Result<usize> {
+        self.calls += 1;
+        if self.intr && self.calls % 5 == 3 {
+            return Err(std::io::ErrorKind::Interrupted.into());
+        }
+        let n = buf.len().min(self.max);
+        self.out.extend_from_slice(&buf[..n]);
+        Ok(n)
+    }
+    fn flush(&mut self) -> std::io::Result<()> {
+        Ok(())
+    }
+}
+
+thread_local! {
+    static SINK: std::cell::Cell<u8> = const { std::cell::Cell::new(0) };
 }
 
 fn rt_case() -> BoxedStrategy<RtCase> {
@@ -418,16 +474,25 @@ fn rt_case() -> BoxedStrategy<RtCase> {
     prop_oneof![3 => owned.boxed(), 4 => view.boxed(), 2 => nested.boxed()]
         .prop_flat_map(|(bw, bh, rects, via)| {
             let n = (3 * bw * bh) as usize;
-            (Just((bw, bh, rects, via)), pvec(adv_byte(), n))
+            let form = || prop_oneof![3 => Just(0u8), 2 => Just(3u8), 3 => 0u8..16];
+            let sink = prop_oneof![4 => Just(0u8), 2 => 1u8..=4, 1 => (1u8..=7).prop_map(|k| k | 0x80), 1 => (5u8..=40)];
+            (Just((bw, bh, rects, via)), pvec(adv_byte(), n), pvec([form(), form()], 2), sink)
         })
-        .prop_map(|((bw, bh, rects, via), px)| RtCase { bw, bh, px: Hex(px), rects, via })
+        .prop_map(|((bw, bh, rects, via), px, forms, sink)| RtCase { bw, bh, px: Hex(px), rects, via, forms, sink })
         .boxed()
 }
 
 fn encode_with<S: AsSlice2<Color3>>(s: S) -> Result<Vec<u8>, String> {
-    let mut out = Vec::new();
-    write_ppm(&mut out, s).map_err(|e| format!("io error {e}"))?;
-    Ok(out)
+    let sink = SINK.with(|c| c.get());
+    if sink == 0 {
+        let mut out = Vec::new();
+        write_ppm(&mut out, s).map_err(|e| format!("io error {e}"))?;
+        Ok(out)
+    } else {
+        let mut out = Dribble { out: Vec::new(), max: (sink & 0x7f) as usize, intr: sink & 0x80 != 0, calls: 0 };
+        write_ppm(&mut out, s).map_err(|e| format!("io error {e}"))?;
+        Ok(out.out)
+    }
 }
 
 fn first_byte_class(b: Option<u8>) -> (&'static str, bool) {
@@ -497,7 +562,22 @@ pub fn check_roundtrip(c: &RtCase, obs: &mut Obs) -> Check {
     }
     // ---- the real thing
     let pix: Vec<Color3> = c.px.0.chunks(3).map(|p| rgb(p[0], p[1], p[2])).collect();
-    let rg = |r: &[u32; 4]| (r[0]..r[2], r[1]..r[3]);
+    // parent extents of each rect, for the open-ended spellings
+    let mut parents = vec![];
+    {
+        let (mut pw, mut ph) = (bw, bh);
+        for r in &c.rects {
+            parents.push((pw, ph));
+            pw = r[2] - r[0];
+            ph = r[3] - r[1];
+        }
+    }
+    let rg = |k: usize| {
+        let (r, f, (pw, ph)) = (&c.rects[k], c.forms.get(k).copied().unwrap_or([0, 0]), parents[k]);
+        (spelled(r[0], r[2], pw, f[0]), spelled(r[1], r[3], ph, f[1]))
+    };
+    ensure!(c.sink & 0x7f != 0 || c.sink == 0, "bad-case", "a sink that accepts 0 bytes per call is not a valid writer");
+    SINK.with(|s| s.set(c.sink));
     // stage 0: constructing the buffer / view (C11's business), stage 1: write_ppm
     let stage = std::cell::Cell::new(0u8);
     let written = catch(|| {
@@ -515,27 +595,27 @@ pub fn check_roundtrip(c: &RtCase, obs: &mut Obs) -> Check {
                 }
             }
             (1, 0) => {
-                let s = buf.slice(rg(&c.rects[0]));
+                let s = buf.slice(rg(0));
                 strided = !s.is_contiguous();
                 stage.set(1);
                 encode_with(s)
             }
             (1, _) => {
-                let s = buf.slice_mut(rg(&c.rects[0]));
+                let s = buf.slice_mut(rg(0));
                 strided = !s.is_contiguous();
                 stage.set(1);
                 encode_with(s)
             }
             (_, 0) => {
-                let s = buf.slice(rg(&c.rects[0]));
-                let s = s.slice(rg(&c.rects[1]));
+                let s = buf.slice(rg(0));
+                let s = s.slice(rg(1));
                 strided = !s.is_contiguous();
                 stage.set(1);
                 encode_with(s)
             }
             _ => {
-                let mut s = buf.slice_mut(rg(&c.rects[0]));
-                let s = s.slice_mut(rg(&c.rects[1]));
+                let mut s = buf.slice_mut(rg(0));
+                let s = s.slice_mut(rg(1));
                 strided = !s.is_contiguous();
                 stage.set(1);
                 encode_with(s)
@@ -586,6 +666,18 @@ pub fn check_roundtrip(c: &RtCase, obs: &mut Obs) -> Check {
     obs.class(fbc);
     if strided {
         obs.class("image:strided(non-contiguous)");
+    }
+    obs.class(match c.sink {
+        0 => "sink:Vec",
+        k if k & 0x80 != 0 => "sink:short-writes+interrupted",
+        k if k < 3 => "sink:short-writes(<3 bytes per call)",
+        _ => "sink:short-writes",
+    });
+    if c.rects.iter().zip(&c.forms).any(|(_, f)| (f[0] | f[1]) & 3 != 0) {
+        obs.class("range:spelled-with-open-end-flags");
+    }
+    if c.rects.len() == 2 && c.forms.len() == 2 && ((c.forms[1][0] & 2 != 0 && c.rects[1][2] == parents[1].0) || (c.forms[1][1] & 2 != 0 && c.rects[1][3] == parents[1].1)) {
+        obs.class("range:nested-view-open-ended(l.. of a strided parent)");
     }
     if w == 0 && h > 0 {
         // Buf2 cannot represent a (0, h>0) image (constructor rejects it, DESIGN D-h), so the decoder cannot
